@@ -6,26 +6,41 @@ ID = "C07"
 META = dict(
     LEVEL="exploration",
     RULE=("valid forest-walk collections (row metadata on every table, individuals, populations, migrations, "
-          "known/unknown mutation times, optional duplicate site positions, optional arbitrary in-range mutation "
-          "parents) pushed through a row-order scrambler (edges, sites, mutations, migrations, individuals, "
-          "populations permuted with ids remapped; nodes fixed) and then through sort() with every "
-          "edge_start/site_start/mutation_start class, the documented repair pipeline, canonicalise() of two "
-          "independent scrambles, compute_mutation_parents, deduplicate_sites, sort_individuals and "
-          "EdgeTable.squash; each result is compared row-for-row with a Python reference written from the docs, and "
-          "the repaired collection is loaded and compared tree-by-tree and genotype-by-genotype with the "
-          "unscrambled original. Small scope: every permutation of the rows of one table (<= 4 rows quick, <= 5 "
-          "thorough) of fixed small collections. A case is distinct by the sha1 of its full scrambled row tuples "
-          "and call arguments; non-triviality is per kind (>= 2 sortable rows, a real scramble, >= 1 computed "
-          "parent, a removed duplicate site, ...)."),
+          "known/unknown mutation times, optional duplicate site positions with 2..9 rows per position, optional "
+          "arbitrary in-range mutation parents) pushed through a row-order scrambler (edges, sites, mutations, "
+          "migrations, individuals, populations permuted with ids remapped; nodes fixed) and then through sort() with "
+          "every edge_start/site_start/mutation_start class (0, 1, k, len-1, len, len+1, 2^31, 2^32, 2^63-1, beyond "
+          "ssize_t, negative; every documented-invalid site/mutation pair) in every argument form (positional, "
+          "keyword, reordered keywords, numpy integers, defaults omitted, low-level method), the documented repair "
+          "pipeline followed by five routes to a TreeSequence, canonicalise() of two independent scrambles in seven "
+          "argument forms, compute_mutation_parents, deduplicate_sites, sort_individuals and EdgeTable.squash "
+          "(standalone and as the edge table of a collection, one-ulp gaps, up to 300 pieces); collections are built "
+          "by add_row and, in a fixed share, dressed with metadata schemas / top-level metadata / reference sequence / "
+          "provenance and re-materialised through copy, fromdict, pickle, dump+load or set_columns; each result is "
+          "compared row-for-row with a Python reference written from the docs, everything an operation must not touch "
+          "is compared byte-wise, and the repaired collection is loaded and compared tree-by-tree and "
+          "genotype-by-genotype with the unscrambled original. Large instances (257-641 nodes as star / chain / levels / "
+          "broom / random, >= 255 mutations stacked on one branch or one per node, 256-640 individuals as chain / star / "
+          "DAG pedigrees, 300 populations, 300 tied migrations, ragged columns and single rows beyond 64 KiB, up to 300 "
+          "rows per site position) and collections with more than 2^16 edges, sites and mutations run at the head of the "
+          "stream. Small scope: every permutation of the rows of one table (<= 4 rows quick, <= 5 thorough) of fixed "
+          "small collections; empty and one-row tables. A case is distinct by the sha1 of its full scrambled row tuples "
+          "and call arguments; non-triviality is per kind (>= 2 sortable rows, a real scramble, >= 1 computed parent, a "
+          "removed duplicate site, ...)."),
     REQUIRED=["sort:ref", "sort:idempotent", "sort:untouched-tables", "sort:invalid-start-rejected",
-              "repair:loads", "repair:trees", "repair:genotypes", "repair:compute_mutation_parents",
-              "repair:deduplicate_sites", "repair:compute_mutation_times", "canon:two-scrambles-identical",
-              "canon:ref", "parents:ref", "dedup:ref", "sortind:ref", "squash:ref", "exh:edges-permutations",
-              "exh:mutations-permutations"],
+              "sort:partial-then-full", "repair:loads", "repair:trees", "repair:genotypes",
+              "repair:compute_mutation_parents", "repair:deduplicate_sites", "repair:compute_mutation_times",
+              "repair:load-forms", "canon:two-scrambles-identical", "canon:ref", "parents:ref", "dedup:ref",
+              "sortind:ref", "squash:ref", "exh:edges-permutations", "exh:mutations-permutations",
+              "untouched:schemas-toplevel-other-tables", "big:sort", "big:canon", "big:repair", "big:sortind",
+              "big:dedup", "big:squash", "big:parents", "huge:sort", "tiny:identity"],
     ASSUMPTIONS=ASSUME_COMMON + [
         "edges/migrations with equal sort keys may come out in any relative order (multiset + key order compared)",
         "canonicalise(): the order of the individual table is not asserted beyond invariance under row permutation",
         "compute_mutation_times values are compared with rtol 1e-9",
+        "start arguments that are negative or beyond ssize_t may be refused with any error type",
+        "metadata schemas are attached after the rows were written (row metadata is opaque bytes to every operation "
+        "checked here)",
     ],
     BUDGET={"quick": 40.0,
             # seconds per worker; VERIF_C07_THOROUGH_BUDGET shortens it for development runs only
